@@ -256,10 +256,11 @@ impl Track {
     }
     pub fn play_from(&mut self, timepos: isize) {
         let mut events: Vec<Event> = vec![];
+        // the values in force before the point, for each channel the track has written to
         let mut cc_values: Vec<isize> = vec![];
-        let mut voice: isize = -1;
-        let mut ch: isize = 0;
-        for _ in 0..128 { cc_values.push(-1); }
+        let mut voices: Vec<isize> = vec![];
+        for _ in 0..16 * 128 { cc_values.push(-1); }
+        for _ in 0..16 { voices.push(-1); }
         self.events_sort(); // the values in force at the point are the latest in time, not the last written
         for e in self.events.iter() {
             match e.etype {
@@ -279,8 +280,9 @@ impl Track {
                     let mut e2 = e.clone();
                     e2.time -= timepos;
                     if e2.time < 0 {
-                        voice = e2.v1;
-                        ch = e2.channel;
+                        if 0 <= e2.channel && e2.channel < 16 {
+                            voices[e2.channel as usize] = e2.v1;
+                        }
                         continue;
                     }
                     events.push(e2);
@@ -289,9 +291,8 @@ impl Track {
                     let mut e2 = e.clone();
                     e2.time -= timepos;
                     if e2.time < 0 {
-                        if 0 <= e2.v1 && e2.v1 < 128 {
-                            cc_values[e2.v1 as usize] = e2.v2;
-                            ch = e2.channel;
+                        if 0 <= e2.v1 && e2.v1 < 128 && 0 <= e2.channel && e2.channel < 16 {
+                            cc_values[(e2.channel * 128 + e2.v1) as usize] = e2.v2;
                         }
                         continue;
                     }
@@ -305,14 +306,16 @@ impl Track {
         }
         // re-issue the latest controller values and program ahead of the remaining events
         let mut restored: Vec<Event> = vec![];
-        // add cc
-        for no in 0..128 {
-            if cc_values[no] < 0 { continue; }
-            restored.push(Event::cc(0, ch, no as isize, cc_values[no as usize]));
-        }
-        // voice
-        if voice >= 0 {
-            restored.push(Event::voice(0, ch, voice));
+        for ch in 0..16 {
+            // add cc
+            for no in 0..128 {
+                if cc_values[ch * 128 + no] < 0 { continue; }
+                restored.push(Event::cc(0, ch as isize, no as isize, cc_values[ch * 128 + no]));
+            }
+            // voice
+            if voices[ch] >= 0 {
+                restored.push(Event::voice(0, ch as isize, voices[ch]));
+            }
         }
         restored.append(&mut events);
         self.events = restored;
